@@ -151,6 +151,16 @@ func runC10(c *ShardCtx) {
 			return
 		}
 	}
+	// two recovery operators in every arrangement (C14's family): standard vs optimized
+	for gi, g := range twoRecoveryFamily(c.Thorough()) {
+		if c.Expired("two-operator family") {
+			return
+		}
+		if !c.Thorough() && gi%2 == 1 {
+			continue
+		}
+		diff(g, xs[:1], def, nil)
+	}
 	// (a)
 	en := peg.NewEnumerator(peg.Alphabet{Leaves: baseLeaves(), Unary: allUnary, Seq: true, Choice: true, MaxArity: 3})
 	for _, body := range en.UpTo(n) {
